@@ -124,6 +124,12 @@ def build_config(topo):
             cfg["hold_coil_release_time"] = "%dms" % d.get("release_time_ms", 500)
         if ej in ("mech", "mech_coil"):
             cfg["mechanical_eject"] = True
+        if d.get("confirm_switch"):
+            # a switch in the path between this device and its target which every ejected ball passes
+            n += 1
+            switches["s_%s_confirm" % name] = {"number": str(n)}
+            cfg["confirm_eject_type"] = "switch"
+            cfg["confirm_eject_switch"] = "s_%s_confirm" % name
         cfg["eject_targets"] = d["target"]
         cfg["eject_timeouts"] = "%dms" % d["eject_timeout_ms"]
         cfg["ball_missing_timeouts"] = "%dms" % d["missing_timeout_ms"]
@@ -222,6 +228,7 @@ class PDev:
         self.ignore_window = d.get("ignore_window_ms", 0) / 1000.0   # per entrance switch debounce configured in MPF
         self.lane_free_at = [-1.0]                                   # per entrance lane: next time a ball may pass
         self.last_launched_ball = None
+        self.confirm_switch = bool(d.get("confirm_switch"))
         self.lanes_independent = d.get("lanes", 1) > 1
         self.leaving_until = -1.0                # entrance-counted: an ejected ball is on its way out until then
         self.full_timeout = d.get("full_timeout_ms", 0) / 1000.0   # >0: the filling ball rests on the entrance switch
@@ -492,6 +499,12 @@ class World:
                 pd.entrance_held = False
                 pd.entrance_busy_until = self.now() + 0.2
                 self.after(self._u(0.05, 0.15), self.report, pd.switch_names[0], 0)
+        if pd.confirm_switch and outcome in ("ok", "late", "stray"):
+            # the ball rolls over the confirm switch right behind the exit
+            cs = "s_%s_confirm" % pd.name
+            t_cs = self._u(0.01, 0.04)
+            self.after(t_cs, self.report, cs, 1)
+            self.after(t_cs + self._u(0.02, 0.05), self.report, cs, 0)
         et, mt = pd.eject_timeout, pd.missing_timeout
         lo, hi = self.benign_transit
         if outcome == "ok":
